@@ -52,6 +52,8 @@ type handle struct {
 }
 
 type machine struct {
+	shared   [3]protoreflect.Value // one message value stored into several slots of the root
+	sharedMD protoreflect.MessageDescriptor
 	ctx      *Ctx
 	t        *model.Type
 	h        []*handle
@@ -418,6 +420,46 @@ func (mc *machine) apply(step int, op Op) error {
 			mc.invalidateField(op.H, fd)
 			mc.mutated = true
 			return mc.judge(what, tri(func(s int) string { h.m[s].Set(fd, vals[s]); return "" }))
+		case "shareinto":
+			// the same message value (one per history and type) is stored into a
+			// slot of the root: singular field, list element or map value. Using it
+			// twice makes two slots alias one message in all three implementations.
+			if op.H != 0 {
+				return nil
+			}
+			var smd protoreflect.MessageDescriptor
+			switch {
+			case fd.IsMap():
+				smd = fd.MapValue().Message()
+			default:
+				smd = fd.Message()
+			}
+			if smd == nil {
+				return nil
+			}
+			if mc.sharedMD == nil || mc.sharedMD.FullName() != smd.FullName() {
+				vals, err := newMessageValue(smd, unhex(op.V))
+				if err != nil {
+					return nil
+				}
+				mc.shared, mc.sharedMD = vals, smd
+			}
+			mc.mutated = true
+			switch {
+			case fd.IsList():
+				return mc.judge(what, tri(func(s int) string { h.m[s].Mutable(fd).List().Append(mc.shared[s]); return "" }))
+			case fd.IsMap():
+				k := keyOf(fd, op.K)
+				for hi, hh := range mc.h {
+					if hh.valid && hh.kind == 'x' && hh.parent == 0 && hh.viaNum == fd.Number() {
+						mc.invalidateDerived(hi, func(x *handle) bool { return x.viaKey == op.K })
+					}
+				}
+				return mc.judge(what, tri(func(s int) string { h.m[s].Mutable(fd).Map().Set(k, mc.shared[s]); return "" }))
+			default:
+				mc.invalidateField(op.H, fd)
+				return mc.judge(what, tri(func(s int) string { h.m[s].Set(fd, mc.shared[s]); return "" }))
+			}
 		case "setlist":
 			// build a new list from NewField, append scalars, Set it
 			if !fd.IsList() || fd.Message() != nil {
@@ -890,6 +932,9 @@ func (mc *machine) drawOp(rt *rapid.T) Op {
 		choices = append(choices, "has", "get", "get", "newfield", "range", "rangestop", "getunknown", "isvalid")
 		if composite && h.mutable {
 			choices = append(choices, "newdetached")
+			if hi == 0 && ((fd.IsMap() && fd.MapValue().Message() != nil) || (!fd.IsMap() && fd.Message() != nil)) {
+				choices = append(choices, "shareinto", "shareinto")
+			}
 		}
 		if h.md.Oneofs().Len() > 0 {
 			choices = append(choices, "which", "which")
@@ -936,6 +981,13 @@ func (mc *machine) drawOp(rt *rapid.T) Op {
 		case "rangemut":
 			op.V = hexs(model.DrawScalarPayload(rt, fd))
 			op.I = rapid.IntRange(0, 1).Draw(rt, "appendOrTruncate")
+		case "shareinto":
+			smd := fd.Message()
+			if fd.IsMap() {
+				smd = fd.MapValue().Message()
+				op.K = hexs(model.DrawScalarPayload(rt, fd.MapKey()))
+			}
+			op.V = drawMsgBytes(rt, mc.ctx, smd)
 		case "setmsg":
 			op.V = drawMsgBytes(rt, mc.ctx, fd.Message())
 		case "setlist":
